@@ -198,6 +198,8 @@ pub trait DynSeq {
     fn size_of_val(&self) -> usize;
     fn as_any(&self) -> &dyn Any;
     fn debug_string(&self) -> String;
+    /// provided iterator methods on the concrete `WTIterator` types (forward and reversed)
+    fn check_iter_adapters(&self, s: &[u128], seed: u64, ctx: &mut crate::runner::Ctx) -> crate::runner::CheckResult;
 }
 
 // ---------------------------------------------------------------------------------------------
@@ -276,6 +278,21 @@ macro_rules! common_body {
         }
         fn as_any(&self) -> &dyn Any {
             self
+        }
+        fn check_iter_adapters(&self, s: &[u128], seed: u64, ctx: &mut crate::runner::Ctx) -> crate::runner::CheckResult {
+            use crate::iteradapt::check_adapters as ca;
+            let e: Vec<T> = s.iter().map(|&x| T::from_u128(x)).collect();
+            let mut r = e.clone();
+            r.reverse();
+            let who = format!("{}<{}>", self.kind().name(), T::TY.name());
+            ca(|| self.iter(), &e, seed, &format!("{who} iter()"), ctx)?;
+            ca(|| self.iter().rev(), &r, seed ^ 1, &format!("{who} iter().rev()"), ctx)?;
+            ca(|| <&Self as IntoIterator>::into_iter(self), &e, seed ^ 2, &format!("{who} (&t).into_iter()"), ctx)?;
+            if s.len() <= 3000 {
+                ca(|| self.clone().into_iter(), &e, seed ^ 3, &format!("{who} into_iter()"), ctx)?;
+                ca(|| self.clone().into_iter().rev(), &r, seed ^ 4, &format!("{who} into_iter().rev()"), ctx)?;
+            }
+            Ok(())
         }
         fn debug_string(&self) -> String {
             use std::fmt::Write;
